@@ -8,8 +8,9 @@ LEVEL = 'other'
 EXPLANATION = ('Proved (K1): the gate runs before translation iff the check is enabled, the safety exception is raised iff the '
                'check is on and the workbook is unsafe, never when it is off, and a failed attempt never leaves a stale text '
                'marked fresh (Parser._translate incl. exceptional exits); Excel.is_safe raises iff the report is non-empty '
-               '(K3 shape). The report key (true title / A1 address) and the two re.findall patterns are decided by the bounded '
-               'monitor, so the level is other.')
+               '(K3 shape); Excel.parse lists every cell that has suspicious fragments under the key built from the sheet title, the '
+               'cell\'s own column letter and row number (K1 with loop invariants, K5 openpyxl). Which fragments are suspicious '
+               '(two re.findall patterns with lazy quantifiers) is decided by the bounded monitor, so the level is other.')
 K1 = ['Parser._translate', 'Parser.enable_safety_check', 'Parser.disable_safety_check']
 
 
@@ -29,6 +30,7 @@ def _key(node):
 def run(ctx):
     res = PropResult('C19')
     K.k1_block(res, ctx, 'contracts.c09', K1, 'C19.')
+    K.k1_block(res, ctx, 'contracts.c18', ['Excel.parse/report'], 'C19.')
     K.shape(res, 'C19.Excel.is_safe.shape', 'repo:excel.py:Excel.is_safe', _is_safe, 'gate')
     K.shape(res, 'C19.Excel.parse.report_key', 'repo:excel.py:Excel.parse', _key,
             'the key is built from the worksheet title, the cell\'s own column letter and the cell\'s own row number '
